@@ -347,6 +347,27 @@ func ruleALLOC(c *Ctx) []Obligation {
 
 // ---------------------------------------------------------------------------
 
+// carriesBlockAddress: a work-list entry that is a small struct holding the blockaddress
+// constant next to bookkeeping (its AST node, a position).
+func carriesBlockAddress(t types.Type) bool {
+	if t == nil {
+		return false
+	}
+	if p, ok := t.(*types.Pointer); ok {
+		t = p.Elem()
+	}
+	st, ok := t.Underlying().(*types.Struct)
+	if !ok {
+		return false
+	}
+	for i := 0; i < st.NumFields(); i++ {
+		if typeKey(st.Field(i).Type()) == "*ir/constant.BlockAddress" {
+			return true
+		}
+	}
+	return false
+}
+
 func ruleTODO(c *Ctx) []Obligation {
 	var obs []Obligation
 	pa := c.pkg(pkgASM)
@@ -413,7 +434,7 @@ func ruleTODO(c *Ctx) []Obligation {
 			}
 			if mapFieldName(info, as.Lhs[0]) == "generator.todo" {
 				if call, ok := as.Rhs[0].(*ast.CallExpr); ok && exprString(call.Fun) == "append" && len(call.Args) == 2 && exprString(call.Args[0]) == exprString(as.Lhs[0]) {
-					if typeKey(info.TypeOf(call.Args[1])) == "*ir/constant.BlockAddress" {
+					if typeKey(info.TypeOf(call.Args[1])) == "*ir/constant.BlockAddress" || carriesBlockAddress(info.TypeOf(call.Args[1])) {
 						o.Verdict, o.Detail, o.Pos = OK, "the blockaddress constant is appended to generator.todo", c.pos(as.Pos())
 					}
 				}
@@ -447,7 +468,7 @@ func ruleTODO(c *Ctx) []Obligation {
 		if rs != nil {
 			// the body calls a function with the element and propagates its error
 			ast.Inspect(rs.Body, func(nd ast.Node) bool {
-				if call, ok := nd.(*ast.CallExpr); ok && len(call.Args) == 1 && rs.Value != nil && exprString(call.Args[0]) == exprString(rs.Value) {
+				if call, ok := nd.(*ast.CallExpr); ok && len(call.Args) == 1 && rs.Value != nil && (exprString(call.Args[0]) == exprString(rs.Value) || strings.HasPrefix(exprString(call.Args[0]), exprString(rs.Value)+".") && strings.HasSuffix(typeKey(info.TypeOf(call.Args[0])), "constant.BlockAddress")) {
 					if f := calleeOf(info, call); f != nil && f.Pkg() != nil && f.Pkg().Path() == pkgASM {
 						fixer = f
 					}
